@@ -134,6 +134,7 @@ func (p *Changes) FileChanged(name string) {
 	n := len(p.changed)
 	p.changed[dir] = none{}
 	p.mutex.Unlock()
+	verifGate(p, dir, n)
 	if n == 0 {
 		p.cond.Broadcast()
 	}
